@@ -26,7 +26,7 @@ func init() {
 	register(&core.Rule{ID: "R-DEDUPE-KEEPS-ONE", Props: []string{"C08", "C11"}, Doc: "DedupeItems: RemoveChild only on a map hit for the node's URL string; lookups and stores use the same key expression; when the earlier node is removed the map entry is overwritten with the survivor; seeds are never removed; markCompleted runs afterwards; flattenTree visits every node", Run: ruleDedupeKeepsOne})
 	register(&core.Rule{ID: "R-CANON-DETERMINISTIC", Props: []string{"C08", "C09"}, Doc: "no range over a map, no time/random source, in any module function reachable from (*URL).String, URLToString or NormalizeURL", Run: ruleCanonDeterministic})
 	register(&core.Rule{ID: "R-CANON-PURE", Props: []string{"C09"}, Doc: "(*URL).String returns a value cached under sync.Once and computed from the parsed URL only; canonicalisation code writes no package-level state", Run: ruleCanonPure})
-	register(&core.Rule{ID: "R-QUERY-PAIRWISE", Props: []string{"C09"}, Doc: "query re-encoding unescapes keys and values only after splitting the raw query into pairs (QueryUnescape is never applied to the raw query parameter itself) and emits the pairs in loop order", Run: ruleQueryPairwise})
+	register(&core.Rule{ID: "R-QUERY-PAIRWISE", Props: []string{"C09", "C10"}, Doc: "query re-encoding unescapes keys and values only after splitting the raw query into pairs (QueryUnescape is never applied to the raw query parameter itself) and emits the pairs in loop order", Run: ruleQueryPairwise})
 }
 
 // itemOfSlice: v is a load of slice[idx]; returns slice and idx values.
